@@ -201,7 +201,11 @@ func genExt(rng *hx.Rng, i int, rs []*tbl.Raw, emit func(op, arg string, rs ...*
 				for g := rng.Range(1, 2); g > 0; g-- {
 					var es []string
 					for e := rng.Range(0, 3); e > 0; e-- {
-						es = append(es, fmt.Sprint(uint64(rng.Intn(3))*(tk-nd)+uint64(rng.Intn(int(tk%3000+2)))))
+						v := uint64(rng.Intn(3))*(tk-nd) + uint64(rng.Intn(int(tk%3000+2)))
+						if rng.Intn(4) == 0 {
+							v = tk - nd // exactly the duration difference: the boundary of `prevDur > durDiff`
+						}
+						es = append(es, fmt.Sprint(v))
 					}
 					gs = append(gs, strings.Join(es, ","))
 				}
